@@ -108,7 +108,8 @@ def identity_to_srepr(goal):
 
 
 def _ev(a):
-    return sp.sympify(eval(a, {**sp.__dict__}))
+    from sympy.functions.elementary.piecewise import ExprCondPair
+    return sp.sympify(eval(a, {**sp.__dict__, "ExprCondPair": ExprCondPair}))
 
 
 def check_identity_srepr(eqs):
